@@ -215,7 +215,9 @@ def _values(T, frozen):
     if k == 'call':
         C = hl.Call
         return [C([]), C([0]), C([3]), C([2], phased=True), C([0, 0]), C([1, 2]), C([0, 1], phased=True),
-                C([2, 1], phased=True), C([7, 7]), C([300, 301])]
+                C([2, 1], phased=True), C([7, 7]), C([300, 301]),
+                # beyond the 36-entry small-pair table, incl. exactly triangular genotype indices (first allele 0)
+                C([0, 8]), C([0, 9]), C([0, 9], phased=True), C([8, 8]), C([8, 9]), C([0, 300]), C([5, 40], phased=True)]
     if k == 'locus':
         rg = hl.get_reference(T[1])
         cs = rg.contigs
